@@ -168,6 +168,17 @@ class Ctx:
             rc, out, err = sh([exe], timeout=60)
             if rc != 0:
                 return "dump_params failed: " + err[-2000:]
+            # tbbmalloc constants live in frontend.cpp: printed by the malloc driver (which #includes it)
+            mlib, e2 = self.build_lib("tbbmalloc")
+            if e2:
+                return e2
+            mexe, e2 = self.build_driver("drv_malloc", libs=[mlib], extra=["-D__TBBMALLOC_BUILD", "-I" + os.path.join(REPO, "src", "tbbmalloc")])
+            if e2:
+                return e2
+            rc, out2, err = sh([mexe, "params"], timeout=60)
+            if rc != 0:
+                return "drv_malloc params failed: " + err[-2000:]
+            out += "\n" + out2
         with Lock("coq"):
             p = os.path.join(COQ, "theories", "Params.v")
             old = open(p).read() if os.path.exists(p) else None
@@ -283,6 +294,21 @@ class Ctx:
         if lines and lines[-1] == "":
             lines.pop()
         return [[int(t) for t in ln.split()] for ln in lines]
+
+    def coq_eval_list(self, imports, expr, timeout=600):
+        """Evaluate a closed Gallina expression of type list Z inside Coq (vm_compute) and return the integers.
+        Used for models that are not extracted (Flocq)."""
+        d = os.path.join(self.cdir, "coqeval_%d" % os.getpid())
+        os.makedirs(d, exist_ok=True)
+        f = os.path.join(d, "Cases.v")
+        open(f, "w").write("From Coq Require Import ZArith List. Import ListNotations. Local Open Scope Z_scope.\n%s\nEval vm_compute in (%s).\n" % (imports, expr))
+        with Lock("coq"):
+            rc, out, err = sh(["coqc", "-Q", os.path.join(COQ, "theories"), "OTV", f], cwd=d, timeout=timeout)
+        shutil.rmtree(d, ignore_errors=True)
+        if rc != 0:
+            raise RuntimeError("coq evaluation failed: " + err[-1500:])
+        body = out[out.index("["):out.rindex("]") + 1] if "[" in out else ""
+        return [int(x) for x in re.findall(r"-?\d+", body)]
 
     # ---------------------------------------------------------------- C++ builds
     def cxx_flags(self, std="c++17", opt="-O1"):
